@@ -257,6 +257,11 @@ func genHistory(w *World, seed uint64, cfg GenCfg, ops io.Writer, obs io.Writer)
 		wildSigner := map[int]bool{}
 		for j := 0; j < ntx; j++ {
 			tx := g.GenTx(s, h)
+			if tx.Signer == -1 && cfg.Mode != "calm" && len(tx.Msgs) == 1 && g.R.P(8) {
+				// a transaction whose last message fails (power below the minimum) after the earlier ones ran: everything
+				// the earlier messages did has to vanish with it
+				tx.Msgs = append(tx.Msgs, Msg{Kind: "SETPOWER", Args: []string{itoa(g.R.N(NOPS)), "999999", "1"}})
+			}
 			if wildSigner[tx.Signer] {
 				continue // a signer whose earlier tx has an unmodelled outcome signs nothing more in this block
 			}
